@@ -280,7 +280,16 @@ class Atomizer:
                     if bi.op == "const" and bj.op == "const":
                         continue
                     Li, Lj = Ls.get(i, 1), Ls.get(j, 1)
-                    ri, rj = T.scale(Lj, self.rw(bi)), T.scale(Li, self.rw(bj))
+                    if bi.op == "quot" or bj.op == "quot":
+                        # compare quotients by cross-multiplication (denominators are asserted non-zero): this spares
+                        # the solver the detour through the auxiliary quotient variables
+                        ni, di = (bi.args if bi.op == "quot" else (bi, T.ONE))
+                        nj, dj = (bj.args if bj.op == "quot" else (bj, T.ONE))
+                        ri = T.scale(Lj, T.mul(self.rw(ni), self.rw(dj)))
+                        rj = T.scale(Li, T.mul(self.rw(nj), self.rw(di)))
+                        self.rw(bi), self.rw(bj)
+                    else:
+                        ri, rj = T.scale(Lj, self.rw(bi)), T.scale(Li, self.rw(bj))
                     self.axioms.append(T.implies(T.eq(ri, rj), T.and_(T.eq(tab[i][0], tab[j][0]), T.eq(tab[i][1], tab[j][1]))))
                     self.axioms.append(T.implies(T.eq(ri, T.neg(rj)),
                                                  T.and_(T.eq(tab[i][0], tab[j][0]), T.eq(tab[i][1], T.neg(tab[j][1])))))
